@@ -319,6 +319,34 @@ def run(ck, facts):
     if len(found) < 25:
         ck.bad("R3", "floor", "only %d unwrap/expect sites found" % len(found))
 
+    # unwrap / expect on a Result in the backends: only on operations that cannot fail for any input (triaged by the kind of operation, not by site)
+    RESULT_UNWRAPS = {
+        "mcall:render": "askama template rendering into a String: fails only if a template expression panics/returns fmt::Error, judged by the other rules",
+        "mcall:render_into": "askama rendering into a String-backed writer",
+        "macro:write": "write! into a String (fmt::Write for String is infallible)",
+        "macro:writeln": "writeln! into a String",
+        "mcall:try_into": "TypeId -> SymbolId / specific id conversions on ids whose kind the enclosing arm established",
+        "mcall:get_inputs": "accessor of a hir Callback, Err only for non-callback types (established by the enclosing arm)",
+        "mcall:get_output_type": "accessor of a hir Callback, Err only for non-callback types",
+        "call:from_size_align": "Layout::from_size_align on sizes/alignments computed from valid layouts (power-of-two alignment is the running max of valid alignments)",
+    }
+    nres = 0
+    for f in tool.fn_list:
+        if f.get("dk") == "Closure" or "hir" not in f or f.get("exp"):
+            continue
+        p_ = C.norm_path(f["path"])
+        if not in_scope(p_):
+            continue
+        for n in C.walk(C.fn_body(f)):
+            if n.get("k") == "mcall" and n.get("m") in ("unwrap", "expect") and "result::Result" in (n.get("rty") or ""):
+                r_ = C.strip_keep_macro(n["recv"])
+                kind_ = "macro:" + str(r_.get("name")) if r_.get("k") == "macro" else ("mcall:" + str(r_.get("m")) if r_.get("k") == "mcall" else
+                                                                                          ("call:" + (C.callee(r_) or "?").split("::")[-1] if r_.get("k") == "call" else str(r_.get("k"))))
+                nres += 1
+                if kind_ not in RESULT_UNWRAPS:
+                    ck.bad("R3", "%s/result-%s(%s)" % (p_, n["m"], kind_), "untriaged unwrap/expect on a Result (%s) in a backend: which accepted bridge, file or configuration makes it Err? "
+                           "(backends report such failures through their error store)" % kind_, C.loc(f, n.get("ln")))
+    ck.expect(nres >= 40, "R3", "result-unwraps/inventory", "%d Result unwraps, all of infallible kinds" % nres, "only %d Result unwrap sites found in the backends (77 counted)" % nres)
     # `Type::id().unwrap()` is sound only where the value is known to be a custom type (a Struct/Enum/Opaque arm on that value, or a converted SelfType)
     n_id = 0
     for f in tool.fn_list:
@@ -401,6 +429,32 @@ def run(ck, facts):
         m = re.search(r"let\s+is_self_opaque\s*=\s*(true|false)", fl)
         ck.expect(bool(m) and m.group(1) == want, "R4", rel + "/is_self_opaque", want, "template %s sets is_self_opaque = %s (expected %s)" % (rel, m.group(1) if m else None, want), "tool/templates/" + rel)
 
+
+    # producer / consumer for operator methods: the C++ and nanobind templates index `param_decls[0]` / print binary operators for every arithmetic and comparison special method,
+    # relying on the attribute validator having pinned the parameter count and the receiver: inside its arm every `check_param_count` / `check_self_param` runs unconditionally
+    va = core.fn("hir::attrs::Attrs::validate")
+    nchk = 0
+    for b_ in C.bodies_inl(core, C.fn_body(va), depth=1, exclude=[va["path"]]):
+        for n, st in C.with_conditions(b_):
+            nm_ = None
+            if n.get("k") == "call" and isinstance(n.get("f"), dict) and n["f"].get("k") == "local":
+                nm_ = n["f"].get("n")
+            elif n.get("k") in ("call", "mcall"):
+                nm_ = (n.get("m") or (C.callee(n) or "").split("::")[-1])
+            if nm_ not in ("check_param_count", "check_self_param"):
+                continue
+            nchk += 1
+            last_arm = max([i for i, e_ in enumerate(st) if e_[0] == "arm"] or [-1])
+            cond_after = [e_ for e_ in st[last_arm + 1:] if e_[0] == "if"] if last_arm >= 0 else []
+            arm_names = []
+            if last_arm >= 0:
+                pv = st[last_arm][2]["pat"]
+                arm_names = [q.get("v") for q in ([pv] if pv.get("k") != "or" else pv["alts"]) if q.get("v")]
+            ck.expect(not cond_after, "R4", "hir::Attrs::validate/%s@%s#%d" % (nm_, "+".join(arm_names) or "arith", sum(1 for i in ck.instances if i["rule"] == "R4" and i["key"].startswith("hir::Attrs::validate/%s@%s#" % (nm_, "+".join(arm_names) or "arith")))),
+                      "unconditional within its arm", "`%s` is skipped under a condition for %s methods: a special method with an unexpected number of parameters / receiver passes validation and the "
+                      "backend templates that index its parameter list panic" % (nm_, "+".join(arm_names) or "arithmetic"), C.loc(va, n.get("ln")))
+    if nchk < 10:
+        ck.bad("R4", "hir::Attrs::validate/checks-floor", "only %d check_param_count / check_self_param calls found (14 counted)" % nchk)
 
     # ---------------- R5 JS allocator producer / consumer
     tool = facts.tool
